@@ -17,12 +17,32 @@ def sh(cmd, timeout=7200):
 WT = "/tmp/matrix_wt_%d" % os.getpid()
 
 
-def run_check(pid, tier):
-    rc, out = sh("VERIF_REPO=%s ./check %s %s" % (WT, pid, tier))
+WT0 = WT + "_clean"
+
+
+def run_check(pid, tier, wt=None):
+    rc, out = sh("VERIF_REPO=%s ./check %s %s" % (wt or WT, pid, tier))
     m = re.search(r"clause counts: (\{.*\})", out)
     counts = eval(m.group(1)) if m else {}
     mach = [l for l in out.splitlines() if "MACHINERY" in l][:2]
     return rc, counts, mach
+
+
+_BASE = {}
+
+
+def baseline(pid, tier):
+    """clause counts of the unchanged tree (known findings included): subtracted from every mutant run"""
+    if (pid, tier) not in _BASE:
+        rc, counts, mach = run_check(pid, tier, WT0)
+        if rc != 0:
+            print("WARNING: %s %s is not clean on the unchanged tree (rc=%d)" % (pid, tier, rc), flush=True)
+        _BASE[(pid, tier)] = counts
+    return _BASE[(pid, tier)]
+
+
+def delta(counts, base):
+    return {c: n - base.get(c, 0) for c, n in counts.items() if n - base.get(c, 0) > 0}
 
 
 def main():
@@ -35,6 +55,8 @@ def main():
         print("cannot create scratch worktree: " + out)
         return 2
     head = sh("git -C /repo rev-parse --short HEAD")[1].strip()
+    sh("git -C /repo worktree remove --force %s" % WT0)
+    sh("git -C /repo worktree add --detach %s HEAD -q" % WT0)
     ids = [json.loads(l)["id"] for l in open(os.path.join(ROOT, "properties.jsonl"))]
     for d in sorted(glob.glob(os.path.join(ROOT, "seeded", "*"))):
         name = os.path.basename(d)
@@ -55,17 +77,23 @@ def main():
             res = {}
             pid = meta["breaks"]
             todo = [pid] + ([i for i in ids if i != pid] if allchecks else [])
-            for c in todo:
-                rc, counts, mach = run_check(c, "quick")
-                tier = "quick"
-                if rc == 0 and c == pid:
-                    rc, counts, mach = run_check(c, "thorough")
-                    tier = "thorough"
-                if rc == 1:
-                    res[c] = dict(tier=tier, clauses=counts)
-                elif rc != 0:
-                    res[c] = dict(tier=tier, machinery_error=mach)
-                print(name, c, tier, "rc=%d" % rc, counts, flush=True)
+            def attempt(c, tiers):
+                for tier in tiers:
+                    rc, counts, mach = run_check(c, tier)
+                    d = delta(counts, baseline(c, tier))
+                    print(name, c, tier, "rc=%d" % rc, d, flush=True)
+                    if rc == 1:
+                        res[c] = dict(tier=tier, clauses=d)
+                        return True
+                    if rc != 0:
+                        res[c] = dict(tier=tier, machinery_error=mach)
+                        return False
+                return False
+            found = attempt(pid, ["quick", "thorough"])
+            others = [i for i in ids if i != pid] if allchecks else ([] if found else ["C20"] + [i for i in ids if i not in (pid, "C20")])
+            for c in others:
+                if attempt(c, ["quick"]) and not allchecks:
+                    break
             old = meta.get("detected_by") or {}
             if isinstance(old, dict) and not redo:
                 old.update(res)
@@ -76,6 +104,7 @@ def main():
         finally:
             sh("git -C %s checkout -- ." % WT)
     sh("git -C /repo worktree remove --force %s" % WT)
+    sh("git -C /repo worktree remove --force %s" % WT0)
     sh("rm -rf /verif/work/mut_*")
     write_md()
     return 0
